@@ -189,4 +189,31 @@ func init() {
 		Keep:        func(sig string) bool { return strings.HasPrefix(sig, "c18:") || strings.HasPrefix(sig, "child-died") },
 		Plan:        func(tier string, seed uint64) []Job { return gcJobs("c18", tier, seed) },
 	})
+	register(&PropSpec{
+		ID: "C13", Level: "exploration",
+		Rule:        "C01/C02/C03 histories in which 1..3 groups of 2..4 keys are forced onto one 64-bit key hash (in-package override of the hash function; all other keys keep their real hash), with overwrites and deletes of every group member, restarts (tree dump present, removed, hint files removed; collision.yaml kept) and GC passes (merge on/off) at generated positions; after every step value, flags and liveness of every key are compared with the reference map (versions only for non-colliding keys; the status of a delete of a colliding key is recorded, not judged). distinct = read signatures (check point x residence x size x phase) observed for runs containing colliding groups",
+		Assumptions: []string{"colliding keys are written with revision 0 only (members of a group share one tree slot and version counter)", "collision.yaml is durable state and is never deleted by the harness"},
+		Plan: func(tier string, seed uint64) []Job {
+			var jobs []Job
+			hist, ops, n := 8, 60, 14
+			if tier == "thorough" {
+				hist, ops, n = 40, 100, 56
+			}
+			r := ref.NewRand(seed ^ 0xc13)
+			for i := 0; i < n; i++ {
+				// check_vhash is off: with a shared tree slot the "same value hash" test
+				// compares against whichever member owns the slot, which the property does not define
+				c := StoreCfg{NumBucket: r.Pick(1, 1, 16), TreeHeight: r.Range(2, 4), CheckVHash: false,
+					SplitCap: int64(r.Pick(2, 5, 64, 1<<20)), IndexInterval: int64(r.Pick(64, 512, 4096)), BodyInC: int64(r.Pick(0, 4096))}
+				c.DataFileMax, c.BodyMax = int64(r.Pick(8, 12, 20))*256, int64(r.Pick(1024, 1<<20))
+				maxVal := int(c.DataFileMax/2) - 24 - 250
+				if int64(maxVal) > c.BodyMax {
+					maxVal = int(c.BodyMax)
+				}
+				gc := i%3 != 0
+				jobs = append(jobs, Job{Variant: "plain", Mode: "db.c13", Args: js(map[string]interface{}{"Cfg": c, "Histories": hist, "NOps": ops, "NKeys": r.Range(5, 10), "MaxVal": maxVal, "MaintPct": 20, "Restart": true, "GC": gc, "Collide": r.Range(1, 3), "Prop": "c13"})})
+			}
+			return jobs
+		},
+	})
 }
